@@ -33,7 +33,11 @@ static inline uint8_t hex2half(char c) { return c07_real_hex2half(c); }
 typedef char *(*c07_i64toa_t)(int64_t, char *, uint8_t);
 static const c07_i64toa_t c07_global_i64toa = &igris_i64toa;
 
+#if __has_include(<igris/container/std_portable.h>) // the header itself may go away
 #include <igris/container/std_portable.h>
+#else
+namespace igris {}
+#endif
 
 namespace igris
 {
